@@ -2,6 +2,7 @@
 from ..rules_shape import floor_a
 from ..rules_tz import floor_b, iter_feedback, in_dst_single, handover, noop_skip, iter_strict
 from ..rules_dep import run_dep
+from ..rules_r5 import dummy_guard
 
 
 def run(ctx, rep):
@@ -11,6 +12,7 @@ def run(ctx, rep):
     handover(rep, prog)
     noop_skip(rep, prog)
     iter_strict(rep, prog)
+    dummy_guard(rep, prog)
     rep.notes.append("Does not decide completeness ('omits none') or hand-over correctness.")
     floor_b(rep, prog, only=("previous_transition", "next_transition"))
     iter_feedback(rep, prog)
